@@ -21,6 +21,11 @@ def lemmas(tier):
     add("load_struct_annot", F5 + [("ext", "bool"), ("mix", "bool"), ("popt", "int")], "V.load_equals(V.doc_structure(0, 6, popt, f1, f2, f3, f4, f5, ext, mix, False))", ["0 <= popt < 3"], "load + read back: structure/property annotations, extends, mixins (all subsets)")
     add("load_enum", [("base", "int"), ("custom", "int"), ("n", "int")] + F5, "V.load_equals(V.doc_enum(base, f1, f2, f3, f4, f5, custom, n))", ["0 <= base < 3", "0 <= custom < 3", "1 <= n <= 2"], "load + read back: enumeration (base type, values, supportsCustomValues, annotations)")
     add("load_alias_shape", [sel, ("bi", "int")], "V.load_equals(V.doc_alias(sel, (5, 6, 8)[bi], False, False, False, False, False))", ["0 <= sel < %d" % NS, "0 <= bi < 3"], "load + read back: type alias of every type kind")
+    nest = [("inner", "int"), ("where", "int")]
+    npre = ["0 <= inner < 11", "0 <= where < 4"]
+    for outer, oname in enumerate(("array", "or (first member)", "or (last of three)", "map value", "tuple", "literal property", "and")):
+        add("load_nested_%d" % outer, nest + [("bi", "int")], "V.load_equals(V.doc_nested(%d, inner, (5, 6, 8)[bi], where))" % outer, npre + ["0 <= bi < 3"], "load + read back: every type kind nested once more inside %s, as property, alias, request result + params list, notification params" % oname)
+    add("eq_nested_flat", [("outer", "int")] + nest, "V.nested_differs_from_flat(outer, inner, 6, where)", ["0 <= outer < V.NWRAP"] + npre, "a nested or / and / tuple and its flattened form load as unequal models")
     add("load_alias_annot", F5, "V.load_equals(V.doc_alias(1, 6, f1, f2, f3, f4, f5))", [], "load + read back: type alias annotations")
     add("load_request_opts", [("direction", "int"), ("params", "int"), ("tn", "bool"), ("rm", "bool"), ("ro", "bool"), ("pr", "bool"), ("ed", "bool")], "V.load_equals(V.doc_request(direction, params, tn, rm, ro, pr, ed, False, False, False, False, False, 1, 6))", ["0 <= direction < 3", "0 <= params < 3"], "load + read back: request optional members (params single/list, typeName, registration*, partialResult, errorData)")
     add("load_request_annot", F5 + [sel], "V.load_equals(V.doc_request(0, 1, True, False, False, False, False, f1, f2, f3, f4, f5, sel, 8))", ["0 <= sel < %d" % NS], "load + read back: request annotations x result type kind")
